@@ -1,0 +1,56 @@
+// SPDX-FileCopyrightText: 2026 The Pion community <https://pion.ly>
+// SPDX-License-Identifier: MIT
+
+//go:build verif
+
+package webrtc
+
+// Contracts for C10 (each generated media section is internally consistent): the RTX
+// filter and the codec emission loop. Comments only.
+
+// Assumed contracts on internal/fmtp (its own matching rules are C17's subject): Parse
+// yields an object, and the value of a parameter is a function of the parsed line and the key.
+//@ func fmtp.Parse
+//@ trusted
+//@ props C10
+//@ ensures result != nil && ufstr("fmtpLine", result) == line
+//@ modifies nothing
+//@ func (fmtp.FMTP).Parameter
+//@ trusted
+//@ props C10
+//@ ensures ret0 == ufstr("fmtpParam", ufstr("fmtpLine", recv), key) && ret1 == ufbool("fmtpHas", ufstr("fmtpLine", recv), key)
+//@ modifies nothing
+
+// An entry is RTX when its mime type is video/rtx (any case); its primary exists when its
+// fmtp line has an apt parameter that is a decimal number in 0..255 naming the payload
+// type of some entry of the list.
+//@ func primaryPayloadTypeForRTXExists
+//@ props C10
+//@ ensures isRTX == strings.EqualFold(needle.MimeType, MimeTypeRTX)
+//@ ensures primaryExists ==> isRTX && (ufbool("fmtpHas", needle.SDPFmtpLine, "apt") && second(strconv.Atoi(ufstr("fmtpParam", needle.SDPFmtpLine, "apt"))) == nil && first(strconv.Atoi(ufstr("fmtpParam", needle.SDPFmtpLine, "apt"))) >= 0 && first(strconv.Atoi(ufstr("fmtpParam", needle.SDPFmtpLine, "apt"))) <= 255) && (exists k int :: 0 <= k && k < len(haystack) && haystack[k].PayloadType == PayloadType(first(strconv.Atoi(ufstr("fmtpParam", needle.SDPFmtpLine, "apt")))))
+//@ ensures isRTX && !primaryExists && (ufbool("fmtpHas", needle.SDPFmtpLine, "apt") && second(strconv.Atoi(ufstr("fmtpParam", needle.SDPFmtpLine, "apt"))) == nil && first(strconv.Atoi(ufstr("fmtpParam", needle.SDPFmtpLine, "apt"))) >= 0 && first(strconv.Atoi(ufstr("fmtpParam", needle.SDPFmtpLine, "apt"))) <= 255) ==> (forall k int :: 0 <= k && k < len(haystack) ==> haystack[k].PayloadType != PayloadType(first(strconv.Atoi(ufstr("fmtpParam", needle.SDPFmtpLine, "apt")))))
+//@ modifies nothing
+//@ loop 0 invariant rangeindex < len(haystack) && isRTX && !primaryExists && (forall k int :: 0 <= k && k <= rangeindex ==> haystack[k].PayloadType != PayloadType(primaryPayloadType))
+
+// The filter visits the list from the back; an iteration removes exactly the visited entry
+// when it is an RTX entry without primary in the list as it is then, and leaves the list
+// alone otherwise. (That no surviving RTX entry is orphaned afterwards additionally needs
+// 'no RTX entry names another RTX entry as its primary', which is not proved of callers.)
+//@ func filterUnattachedRTX
+//@ props C10
+//@ loop 0 invariant -1 <= i && i < len(codecs)
+//@ loop 0 step len(codecs) == loophead(len(codecs)) - ite(isRTX && !primaryExists, 1, 0) && sameptr(codecs, loophead(codecs))
+//@ loop 0 decreases i + 1
+
+// The codec loop of a transceiver section: one rtpmap (WithCodec) per codec of the
+// transceiver, carrying that codec's payload type, clock rate, channels and fmtp line.
+//@ func (*sdp.MediaDescription).WithCodec
+//@ trusted
+//@ props C10
+//@ ghost codecCalls += 1
+//@ modifies nothing
+//@ func addTransceiverSDP #codecs
+//@ props C10
+//@ nosafety
+//@ atcall (*sdp.MediaDescription).WithCodec assert callarg1 == uint8(codec.PayloadType) && callarg3 == codec.ClockRate && callarg4 == codec.Channels && callarg5 == codec.SDPFmtpLine
+//@ loop 0 step ghost(codecCalls) == loophead(ghost(codecCalls)) + 1
